@@ -57,11 +57,30 @@ struct Family {
     all_ranks: bool,
     pres: PresSet,
     /// Payload variants: 0 all valid; 1 the middle change carries a rejected 2nd action;
-    /// 2 the last change has a commit signature that does not verify.
+    /// 2 the last change has a commit signature that does not verify; 3 (patches) every change is
+    /// a delegate merge of the root revision, alternating between two commits.
     variants: &'static [usize],
+    /// `None`: every shape on n changes; `Some`: only the shapes with these indexes.
+    shapes: Option<&'static [u64]>,
+}
+
+/// Indexes of the shapes on `n` changes that a single reference can present although they
+/// contain concurrency: exactly one tip and at least one change with two or more parents
+/// (optionally only those without a redundant edge).
+fn single_tip_merge_shapes(n: usize, allow_redundant: bool) -> &'static [u64] {
+    let v: Vec<u64> = (0..Shape::count(n))
+        .filter(|i| {
+            let s = Shape::nth(n, *i);
+            s.tips().len() == 1 && (1..=n).any(|c| s.parents_of(c).len() > 1) && (allow_redundant || !s.has_redundant_edge())
+        })
+        .collect();
+    Box::leak(v.into_boxed_slice())
 }
 
 impl Family {
+    fn shape_count(&self) -> u64 {
+        self.shapes.map(|s| s.len() as u64).unwrap_or_else(|| Shape::count(self.n))
+    }
     fn ts_count(&self) -> u64 {
         match self.ts {
             TsSet::All => 1 << self.n,
@@ -76,10 +95,10 @@ impl Family {
         }
     }
     fn size(&self) -> u64 {
-        Shape::count(self.n) * self.ts_count() * self.rank_count() * self.variants.len() as u64
+        self.shape_count() * self.ts_count() * self.rank_count() * self.variants.len() as u64
     }
     fn describe(&self) -> Value {
-        json!({"kind": self.kind.name(), "changes": self.n, "shapes": Shape::count(self.n), "timestamps": format!("{:?}", self.ts),
+        json!({"kind": self.kind.name(), "changes": self.n, "shapes": self.shape_count(), "shape_filter": if self.shapes.is_some() { "single tip and at least one merge" } else { "all" }, "timestamps": format!("{:?}", self.ts),
                "rank_orders": self.rank_count(), "presentations": format!("{:?}", self.pres), "variants": self.variants, "items": self.size()})
     }
     fn plan(&self, mut i: u64) -> (Plan, usize) {
@@ -89,7 +108,7 @@ impl Family {
         i /= self.rank_count();
         let ts_i = i % self.ts_count();
         i /= self.ts_count();
-        let shape = Shape::nth(self.n, i);
+        let shape = Shape::nth(self.n, self.shapes.map(|s| s[i as usize]).unwrap_or(i));
         let n = self.n;
         let ts: Vec<i64> = match self.ts {
             TsSet::All => (0..n).map(|k| ((ts_i >> k) & 1) as i64).collect(),
@@ -100,6 +119,7 @@ impl Family {
         match variant {
             1 => modes[(n - 1) / 2] = Mode::Rejected { pos: 1, reason: 0 },
             2 => modes[n - 1] = Mode::BadSig,
+            3 => modes = vec![Mode::Merge; n],
             _ => {}
         }
         (Plan { kind: self.kind, shape, ts, modes, rank, root_author: N }, variant)
@@ -116,30 +136,39 @@ fn families(thorough: bool) -> Vec<Family> {
         for n in 1..=3 {
             if thorough {
                 let variants: &'static [usize] = if kind == Kind::Issue { &[0, 1, 2] } else { &[0] };
-                f.push(Family { kind, n, ts: TsSet::All, all_ranks: true, pres: PresSet::Full, variants });
+                f.push(Family { kind, n, ts: TsSet::All, all_ranks: true, pres: PresSet::Full, variants, shapes: None });
             } else if kind == Kind::Issue {
-                f.push(Family { kind, n, ts: TsSet::All, all_ranks: true, pres: PresSet::Full, variants: &[0] });
-                f.push(Family { kind, n, ts: TsSet::All, all_ranks: true, pres: PresSet::Short, variants: &[1, 2] });
+                f.push(Family { kind, n, ts: TsSet::All, all_ranks: true, pres: PresSet::Full, variants: &[0], shapes: None });
+                f.push(Family { kind, n, ts: TsSet::All, all_ranks: true, pres: PresSet::Short, variants: &[1, 2], shapes: None });
             } else {
-                f.push(Family { kind, n, ts: TsSet::All, all_ranks: true, pres: PresSet::Short, variants: &[0] });
+                f.push(Family { kind, n, ts: TsSet::All, all_ranks: true, pres: PresSet::Short, variants: &[0], shapes: None });
             }
         }
     }
+    // Patches whose changes are all delegate merges of the root revision at two different commits
+    // (threshold 1: two sufficiently supported merges, `State::Open { conflicts }`).
+    for n in 2..=3 {
+        f.push(Family { kind: Kind::Patch, n, ts: TsSet::All, all_ranks: true, pres: if thorough { PresSet::Full } else { PresSet::Short }, variants: &[3], shapes: None });
+    }
+    // 4 changes, histories that one reference can present although they contain concurrent
+    // changes (one tip, at least one merge): every timestamp pattern x every rank order, so that
+    // timestamp order and id order of concurrent changes disagree in every possible way.
+    f.push(Family { kind: Kind::Issue, n: 4, ts: TsSet::All, all_ranks: true, pres: PresSet::Short, variants: &[0], shapes: Some(single_tip_merge_shapes(4, thorough)) });
     if !thorough {
         // 4 changes: every shape, equal timestamps (the id tie-break decides everything),
         // rank as salt 0 gives it, short presentations.
-        f.push(Family { kind: Kind::Issue, n: 4, ts: TsSet::Equal, all_ranks: false, pres: PresSet::Short, variants: &[0] });
+        f.push(Family { kind: Kind::Issue, n: 4, ts: TsSet::Equal, all_ranks: false, pres: PresSet::Short, variants: &[0], shapes: None });
     } else {
         // 4 changes: every shape x every timestamp pattern, salt-0 ranks, short presentations ...
-        f.push(Family { kind: Kind::Issue, n: 4, ts: TsSet::All, all_ranks: false, pres: PresSet::Short, variants: &[0] });
+        f.push(Family { kind: Kind::Issue, n: 4, ts: TsSet::All, all_ranks: false, pres: PresSet::Short, variants: &[0], shapes: None });
         // ... and every shape x every rank order with equal timestamps (the id tie-break decides
         // everything), full presentation set.
-        f.push(Family { kind: Kind::Issue, n: 4, ts: TsSet::Equal, all_ranks: true, pres: PresSet::Full, variants: &[0] });
+        f.push(Family { kind: Kind::Issue, n: 4, ts: TsSet::Equal, all_ranks: true, pres: PresSet::Full, variants: &[0], shapes: None });
         for kind in [Kind::Patch, Kind::Thread, Kind::Identity] {
-            f.push(Family { kind, n: 4, ts: TsSet::Equal, all_ranks: false, pres: PresSet::Short, variants: &[0] });
+            f.push(Family { kind, n: 4, ts: TsSet::Equal, all_ranks: false, pres: PresSet::Short, variants: &[0], shapes: None });
         }
         // 5 changes: every shape, equal timestamps, salt-0 ranks, full presentations.
-        f.push(Family { kind: Kind::Issue, n: 5, ts: TsSet::Equal, all_ranks: false, pres: PresSet::Full, variants: &[0] });
+        f.push(Family { kind: Kind::Issue, n: 5, ts: TsSet::Equal, all_ranks: false, pres: PresSet::Full, variants: &[0], shapes: None });
     }
     f
 }
@@ -256,10 +285,38 @@ fn eval_plan(seed: u64, plan: &Plan, pres: PresSet, variant: usize) -> ItemOut {
         let all = presentations(n, &tips, max_len);
         let mut vs = vec![];
         let mut reference: Option<(Vec<usize>, Eval)> = None;
+        // Evaluating the very same refs again must give the same result: a difference here is
+        // nondeterminism inside the evaluation (e.g. hash-map iteration order reaching the
+        // state), reported on its own and not as a presentation difference.
+        let repeats = if variant == 3 { 16 } else { 1 };
+        let mut unstable = false;
         for seq in &all {
             let refs: Vec<(usize, Oid)> = seq.iter().enumerate().map(|(ns, node)| (ns, built.ids[*node])).collect();
             ws.w1.present(&ty, &built.obj, &refs);
             let e = eval(&ws.w1, kind, &built.obj);
+            if reference.is_none() {
+                for _ in 0..repeats {
+                    let again = eval(&ws.w1, kind, &built.obj);
+                    if again != e {
+                        let d = difference(&e, &again);
+                        vs.push(
+                            Violation::new(
+                                format!("C05/{}/same-refs-evaluate-differently/{}", kind.name(), coarse(&d)),
+                                format!("{}: evaluating the same change set through the same refs (nodes {seq:?}) twice gives different results: {d}", kind.name()),
+                                json!({"plan": plan_json(plan, Some(&built)), "presentation_a": seq, "pres_max_len": max_len, "variant": variant,
+                                       "result_a": describe_eval(&e), "result_b": describe_eval(&again)}),
+                            )
+                            .cost((n * 100) as u64),
+                        );
+                        unstable = true;
+                        break;
+                    }
+                }
+            }
+            if unstable {
+                reference = Some((seq.clone(), e));
+                break;
+            }
             match &reference {
                 None => reference = Some((seq.clone(), e)),
                 Some((rseq, r)) => {
@@ -286,7 +343,7 @@ fn eval_plan(seed: u64, plan: &Plan, pres: PresSet, variant: usize) -> ItemOut {
         // Different order of arrival: a second repository that has seen nothing receives the
         // changes in the reverse linear extension (always the largest-index change whose parents
         // are present; `store` refuses a change whose parents are absent).
-        {
+        if !unstable {
             let mut written: BTreeSet<usize> = BTreeSet::new();
             if kind == Kind::Identity {
                 written.insert(0); // the identity root is the repository's own
